@@ -92,7 +92,8 @@ claim("C15",
       "Proof for the per-kind cache handler (get, list, put, remove, append, len, contextWithTeardown): every element of the cached list is a non-nil resource with "
       "metadata after every operation (monitor invariant under the handler's mutex), every index derived from a binary search is in bounds, get returns a resource "
       "with the requested ID that is a fresh deep copy, list returns only items that went through the copying map step, a teardown-bound context is cancelled on the "
-      "spot only when the resource is absent or already tearing down.",
+      "spot only when the resource is absent or already tearing down, a waiter channel already registered for an ID is kept, and list works on a private "
+      "snapshot taken under the lock.",
       COMMON + "Only the contract-decidable, per-call part of C15 is claimed. Not decided: blocking until bootstrapped, never-going-backwards, coherence with "
       "notifications and equality with uncached reads at quiescence (history/liveness statements), ResourceCache dispatch, processEvents. The results of "
       "slices.BinarySearchFunc are assumptions at each call site and the sortedness of the list they rely on is NOT proved (the shifted-array obligations of "
@@ -102,7 +103,8 @@ claim("C17",
       "Proof for the dependency database: AddControllerOutput keeps the monitor invariant 'no type is claimed both exclusively and shared, shared lists are non-empty', "
       "refuses an exclusive claim on a type that has any claim and any claim on an exclusively held type, records an accepted exclusive claim for exactly that "
       "controller, changes no other type, and changes nothing when it refuses; Add/DeleteControllerInput change only the named controller's list and nothing when they "
-      "refuse, with all index arithmetic of the +/-1 neighbourhood scan in bounds; GetControllerInputs returns a copy; GetDependentControllers requires an ID. "
+      "refuse, with all index arithmetic of the +/-1 neighbourhood scan in bounds, and an input whose namespace/type/ID equals a stored one is refused (loop "
+      "invariant over the scan; that binary search lands next to such an input is an assumption); GetControllerInputs and GetDependentControllers return copies. "
       "rruntime/qruntime NewAdapter carry 'a rejected registration performed no database change' over the ghost counter of accepted changes: this obligation FAILS "
       "and is the known finding F4 (replayed on the real code).",
       COMMON + "Not under contract: that a controller's input list is sorted and free of conflicting keys (the neighbourhood scan relies on it), Export, "
@@ -124,7 +126,8 @@ claim("C09",
       "key twice and that the two containers stay separate objects; it is established on entry and preserved by every select case (hand-out, timer, release with "
       "or without requeue and with a parked notification, put of a fresh or an in-flight key). Underneath, the containers: SliceSet never holds an item twice, "
       "Add/Remove are exact; PriorityQueue never holds a key twice, Push replaces or keeps the entry of a key, reports 'added' iff the key was new, every key "
-      "afterwards was there before or is the pushed one, Pop removes exactly the head; Peek/Len are panic-free.",
+      "afterwards was there before or is the pushed one, Pop removes exactly the head; Peek/Len are panic-free; an Item marks itself released on its first "
+      "Requeue/Release.",
       COMMON + "Not decided: coalescing to the most recent *value*, that a parked notification is re-delivered after release (a liveness flavour: the code path "
       "is under the invariant, the 'eventually delivered' is not), the reported length (atomic counter, not modelled), ordering by release time inside "
       "PriorityQueue (results of slices.IndexFunc/BinarySearchFunc for the closures used are assumptions at the call sites), timers and backoff (time not "
